@@ -50,6 +50,11 @@ def run(idx, rep, tier):
     r5(idx, rep)
     from . import c09
     c09.empty_collection(idx, rep, "R2")
+    # the chain a run executes is the group as it is declared *now* (a source-mode comment added by re-declaring the group takes effect):
+    # C12's curated sequences with reads between writes
+    from . import c12
+    n12, msg12 = c12.run_sequences(idx, 0, extra=c12.CURATED)
+    rep.check(msg12 is None, "R1", "csvpath/managers/paths/paths_manager.py::a run loads the group as declared now", msg12 or f"{n12} operation sequences", "csvpath/managers/paths/paths_manager.py")
     rep.stats["exhaustive"] = True
 
 
